@@ -47,6 +47,9 @@ def _case(draw, tier):
     if draw(st.integers(0, 3)) == 0:
         k, ang = draw(st.sampled_from([2.0e4, 3.3e4, 6.0e4])), draw(gen.rf(0.0, 6.28))
         d["origin"] = [k * d["layer"]["xi"] * float(np.cos(ang)), k * d["layer"]["xi"] * float(np.sin(ang))]
+    # ... or a relaxed (smoothed) copy of its mesh was requested through the documented Mesh.smooth(), which returns a new mesh
+    if hist is None and draw(st.integers(0, 4)) == 0:
+        hist = dict(smooth_copy=draw(st.sampled_from([1, 3, 10])))
     return dict(device=d, history=hist)
 
 
@@ -69,6 +72,15 @@ def check_case(spec):
     dev = build.make_device_or_refuse(dspec)
     shift = np.zeros(2)
     hist = spec.get("history")
+    if hist and hist.get("smooth_copy"):
+        try:
+            dev.mesh.smooth(int(hist["smooth_copy"]))
+        except ValueError as exc:
+            if "Malformed Voronoi" not in str(exc):
+                raise
+            res.label("smoothed copy refused (malformed Voronoi cell)")
+        res.label("history: smoothed copy of the mesh requested, original examined")
+        hist = None
     if hist:
         moved = dev.copy()
         moved.translate(dx=hist["dx"], dy=hist["dy"], inplace=True)
